@@ -113,6 +113,47 @@ def build_graph(graph, gouts, root):
     return model, nodes, back
 
 
+def _rematch_after_edit(pat, model, nodes, root, first):
+    """History step (the verdict is a function of pattern, graph and root only): every non-root node of the host is replaced,
+    one after the other, by an identical new node (same operator, inputs, attributes and names; the node count is unchanged), and
+    the SAME pattern object is matched again on the SAME graph.  -> list of discrepancies"""
+    import onnx_ir as ir
+
+    bad = []
+    first_ok = bool(first)
+    first_ns = [n.name for n in first.nodes] if first_ok else None
+    g = model.graph
+    for k in range(len(nodes)):
+        if k == root - 1:
+            continue
+        old = nodes[k]
+        new = ir.Node(old.domain, old.op_type, inputs=list(old.inputs), attributes=list(old.attributes.values()), num_outputs=len(old.outputs),
+                      name=old.name)
+        for o, no in zip(old.outputs, new.outputs):
+            no.name, no.type, no.shape = o.name, o.type, o.shape
+        g.insert_after(old, new)
+        for i, o in enumerate(g.outputs):
+            for oo, no in zip(old.outputs, new.outputs):
+                if o is oo:
+                    g.outputs[i] = no
+        ir.convenience.replace_all_uses_with(list(old.outputs), list(new.outputs))
+        g.remove(old, safe=True)
+        nodes[k] = new
+        m2 = pat.match(model, g, nodes[root - 1], check_nodes_are_removable=True)
+        if bool(m2) != first_ok:
+            bad.append(f"after replacing {old.name} by an identical node the same pattern object {'matches' if m2 else 'does not match'} "
+                       f"(before: {'match' if first_ok else 'no match'})")
+        elif m2:
+            stale = [n.name for n in m2.nodes if n.graph is not g]
+            if stale:
+                bad.append(f"after replacing {old.name} by an identical node the match contains node(s) {stale} that are no longer in the graph")
+            elif [n.name for n in m2.nodes] != first_ns:
+                bad.append(f"after replacing {old.name} by an identical node the matched nodes are {[n.name for n in m2.nodes]} (before: {first_ns})")
+        if bad:
+            break
+    return bad
+
+
 def run_chunk(cases):
     out = []
     pcache = {}
@@ -154,12 +195,20 @@ def run_chunk(cases):
                         kcm = hit
                     else:
                         cm = hit
+            rem = None
+            if len(c.get("pouts") or []) > 1 and len(nodes) > 1:
+                b0 = ({n: (back.get(id(m.bindings[n]), -1) if m.bindings.get(n) is not None else 0) for n in ("x", "y", "z") if n in m.bindings}, 
+                      [int(n.name[1:]) for n in m.nodes]) if m else None
+                rem = _rematch_after_edit(pat, model, nodes, c["root"], m)
+                if m:
+                    out.append({"ok": True, "b": b0[0], "ns": b0[1], "commuted": cm, "keep": km, "keep_commuted": kcm, "rematch": rem})
+                    continue
             if m:
                 b = {n: (back.get(id(m.bindings[n]), -1) if m.bindings.get(n) is not None else 0) for n in ("x", "y", "z") if n in m.bindings}
                 ns = [int(n.name[1:]) for n in m.nodes]
-                out.append({"ok": True, "b": b, "ns": ns, "commuted": cm, "keep": km, "keep_commuted": kcm})
+                out.append({"ok": True, "b": b, "ns": ns, "commuted": cm, "keep": km, "keep_commuted": kcm, "rematch": rem})
             else:
-                out.append({"ok": False, "commuted": cm, "keep": km, "keep_commuted": kcm})
+                out.append({"ok": False, "commuted": cm, "keep": km, "keep_commuted": kcm, "rematch": rem})
         except Exception as e:  # the matcher must not raise on any pattern/graph
             out.append({"raise": f"{type(e).__name__}: {str(e)[:200]}"})
     return out
@@ -227,6 +276,10 @@ def run(ctx: core.Ctx):
             kind = "reports a match but the subgraph is not an instance" if r["ok"] and not c["decl"] else (
                 "reports no match but the subgraph is an instance" if not r["ok"] else f"bindings {got_b} are not those of an instance {declB}")
             ctx.report(dict(c, real=r), f"matcher {kind}: {describe(c)}", finding=finding)
+        if r.get("rematch") is not None:
+            ctx.add("rematch_histories")
+            if r["rematch"]:
+                ctx.report(dict(c, real=r), f"the matcher's verdict depends on what the pattern object matched before: {r['rematch'][0]}: {describe(c)}")
         if r.get("commuted") is not None and r["commuted"] != c["declC"]:
             # the only way the commuted search may legitimately miss an instance is the committed-first OR
             or_uses = sum(1 for pn in c["pat"] for v in pn["ins"] if v[0] == "or")
